@@ -1468,7 +1468,9 @@ class Key(object):
         :return str: BIP38 password encrypted private key
         """
         flagbyte = b'\xe0' if self.compressed else b'\xc0'
-        return bip38_encrypt(self.private_hex, self.address(), password, flagbyte)
+        # BIP38 hashes the address of the key itself: do not depend on an address requested from this object earlier
+        address = self.address() if isinstance(self, HDKey) else self.address(script_type='p2pkh', encoding='base58')
+        return bip38_encrypt(self.private_hex, address, password, flagbyte)
 
     def wif(self, prefix=None):
         """
